@@ -54,7 +54,14 @@ func VerifC03Placement() {
 	}
 	mo := &descriptorpb.MethodOptions{}
 	verif.SetExt(mo, http.E_Config, &http.HttpConfig{Path: "/things/{id}", Method: verb})
-	svc := verif.NewService("acme.v1", "ThingService", &descriptorpb.ServiceOptions{})
+	so := &descriptorpb.ServiceOptions{}
+	if verif.Bool("service.headers") {
+		verif.SetExt(so, http.E_ServiceHeaders, &http.ServiceHeaders{RequiredHeaders: []*http.Header{{Name: "X-Tenant", Type: "string", Required: true}}})
+	}
+	if verif.Bool("method.headers") {
+		verif.SetExt(mo, http.E_MethodHeaders, &http.MethodHeaders{RequiredHeaders: []*http.Header{{Name: "X-Trace", Type: "string", Required: true}}})
+	}
+	svc := verif.NewService("acme.v1", "ThingService", so)
 	resp := verif.NewMessage("acme.v1", "Resp")
 	m := verif.NewMethod(svc, "GetThing", "GetThing", req, resp, mo)
 	file := verif.NewFile("acme/v1/thing.proto", "acme.v1", "acmev1", "acme/v1/thing")
